@@ -7,6 +7,8 @@ package c03
 import (
 	"encoding/base64"
 	"encoding/json"
+	"errors"
+	"math"
 	"sort"
 	"strconv"
 	"strings"
@@ -112,7 +114,139 @@ func (sp Spec) LeafString() string {
 // Shapes lists the value shapes; "json" parses the leaf as a JSON literal
 // (numbers, true/false/null); "int" as a Go int64.
 var Shapes = []string{"str", "named", "arr", "strslice", "mapval", "mapkey", "mapss", "nested", "struct", "json", "int",
-	"raw", "rawindent", "rawstr", "marshaler", "rawfield"}
+	"raw", "rawindent", "rawstr", "marshaler", "rawfield", "num",
+	"unenc_mapbool", "unenc_chan", "unenc_func", "unenc_nan", "unenc_err", "unenc_inf32"}
+
+// NumKinds: Go types of the "num" shape; its leaf is "<kind>:<literal>". The
+// value is the literal converted to that type (float literals are rounded to the
+// type's precision first), top level or inside a container.
+var NumKinds = []string{"f32", "f64", "i8", "i16", "i32", "i64", "int", "u8", "u16", "u32", "u64", "uint", "uintptr",
+	"nf32", "nf64", "ni16", "nu32", "pf32", "pf64", "pi8", "sf32", "a3f32", "stf32", "mf32", "af32"}
+
+type (
+	MyF32 float32
+	MyF64 float64
+	MyI16 int16
+	MyU32 uint32
+	// NumRec carries sized numbers in a struct.
+	NumRec struct {
+		F  float32  `json:"f"`
+		P  *float32 `json:"p"`
+		N  MyF32    `json:"n"`
+		I8 int8     `json:"i8"`
+		U  uint64   `json:"u"`
+	}
+)
+
+// UnencShapes are values encoding/json refuses, each carrying the leaf string.
+// What the emitted JavaScript evaluates to is not judged for them (the encoders
+// have no JSON to emit); they must still be unable to end the script element,
+// literal or attribute or to open a comment.
+var UnencShapes = []string{"unenc_mapbool", "unenc_chan", "unenc_func", "unenc_nan", "unenc_err", "unenc_inf32"}
+
+// Unencodable reports whether the shape is one of UnencShapes.
+func Unencodable(shape string) bool { return strings.HasPrefix(shape, "unenc_") }
+
+type ChanRec struct {
+	Name string
+	C    chan int
+}
+
+type FuncRec struct {
+	F    func() string
+	Note string
+}
+
+// FailingMarshaler's MarshalJSON fails; its text form is the leaf.
+type FailingMarshaler struct{ S string }
+
+func (f FailingMarshaler) MarshalJSON() ([]byte, error) { return nil, errors.New("refused: " + f.S) }
+func (f FailingMarshaler) String() string               { return f.S }
+
+func numValue(leaf string) any {
+	kind, lit, ok := strings.Cut(leaf, ":")
+	if !ok {
+		panic("bad num leaf " + strconv.Quote(leaf))
+	}
+	f64 := func(bits int) float64 {
+		f, err := strconv.ParseFloat(lit, bits)
+		if err != nil {
+			panic("bad num leaf " + strconv.Quote(leaf))
+		}
+		return f
+	}
+	i64 := func(bits int) int64 {
+		n, err := strconv.ParseInt(lit, 10, bits)
+		if err != nil {
+			panic("bad num leaf " + strconv.Quote(leaf))
+		}
+		return n
+	}
+	u64 := func(bits int) uint64 {
+		n, err := strconv.ParseUint(lit, 10, bits)
+		if err != nil {
+			panic("bad num leaf " + strconv.Quote(leaf))
+		}
+		return n
+	}
+	switch kind {
+	case "f32":
+		return float32(f64(32))
+	case "f64":
+		return f64(64)
+	case "i8":
+		return int8(i64(8))
+	case "i16":
+		return int16(i64(16))
+	case "i32":
+		return int32(i64(32))
+	case "i64":
+		return i64(64)
+	case "int":
+		return int(i64(64))
+	case "u8":
+		return uint8(u64(8))
+	case "u16":
+		return uint16(u64(16))
+	case "u32":
+		return uint32(u64(32))
+	case "u64":
+		return u64(64)
+	case "uint":
+		return uint(u64(64))
+	case "uintptr":
+		return uintptr(u64(64))
+	case "nf32":
+		return MyF32(f64(32))
+	case "nf64":
+		return MyF64(f64(64))
+	case "ni16":
+		return MyI16(i64(16))
+	case "nu32":
+		return MyU32(u64(32))
+	case "pf32":
+		f := float32(f64(32))
+		return &f
+	case "pf64":
+		f := f64(64)
+		return &f
+	case "pi8":
+		n := int8(i64(8))
+		return &n
+	case "sf32":
+		return []float32{float32(f64(32)), 0.5, -float32(f64(32))}
+	case "a3f32":
+		return [3]float32{float32(f64(32)), 19.99, 1e-7}
+	case "stf32":
+		f := float32(f64(32))
+		return NumRec{F: f, P: &f, N: MyF32(f), I8: -7, U: 9007199254740991}
+	case "mf32":
+		return map[string]float32{"a": float32(f64(32)), "b": 19.99}
+	case "af32":
+		return []any{float32(f64(32)), int8(-1), uint16(65535), MyF32(f64(32))}
+	}
+	panic("unknown num kind " + kind)
+}
 
 // RawShapes are the shapes built from pre-encoded JSON text (json.RawMessage /
 // json.Marshaler) with the leaf inside strings, not HTML-escaped.
@@ -154,6 +288,20 @@ func (sp Spec) Go() any {
 	case "rawfield":
 		q := json.RawMessage(RawQuote(s))
 		return RawDoc{ID: 7, Doc: json.RawMessage(`{"k": ` + string(q) + `}`), M: map[string]json.RawMessage{"x": q}, L: []json.RawMessage{q, json.RawMessage("null")}, P: PreEncoded{string(q)}}
+	case "num":
+		return numValue(s)
+	case "unenc_mapbool":
+		return map[bool]string{true: s}
+	case "unenc_chan":
+		return ChanRec{Name: s, C: make(chan int)}
+	case "unenc_func":
+		return FuncRec{F: func() string { return s }, Note: s}
+	case "unenc_nan":
+		return []any{math.NaN(), s}
+	case "unenc_err":
+		return FailingMarshaler{s}
+	case "unenc_inf32":
+		return map[string]any{s: float32(math.Inf(-1))}
 	case "json":
 		var v any
 		if err := json.Unmarshal([]byte(s), &v); err != nil {
